@@ -1009,6 +1009,206 @@ func (c *hCtx) checkEntryPoints() {
 	}
 }
 
+// C17: metamorphic runs — results are unchanged (or mirrored) under transformations the statistic cannot see
+func (c *hCtx) checkSymmetry() {
+	name := "symmetry"
+	sizes := []int{9000, 10240}
+	if c.req.Budget == "thorough" {
+		sizes = append(sizes, 100003, 1000000)
+	}
+	near := func(what string, in interface{}, a, b []float64) bool {
+		c.resp.Cases[name]++
+		for i := range a {
+			d := math.Abs(a[i] - b[i])
+			if math.IsNaN(a[i]) && math.IsNaN(b[i]) {
+				continue
+			}
+			if d > c.resp.MaxErr[name] {
+				c.resp.MaxErr[name] = d
+			}
+			if !(d <= 1e-9) {
+				c.report(name, in, fmt.Sprintf("%s: %v", what, a), fmt.Sprintf("%v", b))
+				return false
+			}
+		}
+		return true
+	}
+	p2 := func(p, q float64) []float64 { return []float64{p, q} }
+	for _, n := range sizes {
+		for _, sq := range famSeqs(n, c.rng, 2) {
+			x := sq.Bits
+			comp := make([]bool, n)
+			rev := make([]bool, n)
+			for i := range x {
+				comp[i] = !x[i]
+				rev[i] = x[n-1-i]
+			}
+			in := map[string]interface{}{"family": sq.Name, "n": n, "seed": c.req.Seed}
+			ok := true
+			// complement
+			p, q := MonoBitFrequencyTest(x)
+			ok = ok && near("monobit complement", in, p2(MonoBitFrequencyTest(comp)), []float64{p, 1 - q})
+			ok = ok && near("blockfreq complement", in, p2(FrequencyWithinBlockProto(comp, 100)), p2(FrequencyWithinBlockProto(x, 100)))
+			ok = ok && near("runs complement", in, p2(RunsTest(comp)), p2(RunsTest(x)))
+			ok = ok && near("runsdist complement", in, p2(RunsDistributionTest(comp)), p2(RunsDistributionTest(x)))
+			ok = ok && near("longest run complement", in, p2(LongestRunOfOnesInABlockProto(comp, true)), p2(LongestRunOfOnesInABlockProto(x, false)))
+			ok = ok && near("binary derivative complement", in, p2(BinaryDerivativeProto(comp, 7)), p2(BinaryDerivativeProto(x, 7)))
+			ok = ok && near("autocorrelation complement", in, p2(AutocorrelationProto(comp, 16)), p2(AutocorrelationProto(x, 16)))
+			ok = ok && near("cusum complement", in, p2(CumulativeTest(comp, true)), p2(CumulativeTest(x, true)))
+			ok = ok && near("poker complement", in, p2(PokerProto(comp, 4)), p2(PokerProto(x, 4)))
+			o1, o2, _, _ := OverlappingTemplateMatchingProto(x, 3)
+			c1, c2, _, _ := OverlappingTemplateMatchingProto(comp, 3)
+			ok = ok && near("overlapping complement", in, []float64{c1, c2}, []float64{o1, o2})
+			ok = ok && near("apen complement", in, p2(ApproximateEntropyProto(comp, 2)), p2(ApproximateEntropyProto(x, 2)))
+			// reversal
+			ok = ok && near("monobit reversal", in, p2(MonoBitFrequencyTest(rev)), p2(p, q))
+			ok = ok && near("runs reversal", in, p2(RunsTest(rev)), p2(RunsTest(x)))
+			ok = ok && near("runsdist reversal", in, p2(RunsDistributionTest(rev)), p2(RunsDistributionTest(x)))
+			ok = ok && near("autocorrelation reversal", in, p2(AutocorrelationProto(rev, 8)), p2(AutocorrelationProto(x, 8)))
+			ok = ok && near("binary derivative reversal", in, p2(BinaryDerivativeProto(rev, 3)), p2(BinaryDerivativeProto(x, 3)))
+			ok = ok && near("cusum reversal (forward of reversed = backward)", in, p2(CumulativeTest(rev, true)), p2(CumulativeTest(x, false)))
+			r1, r2, _, _ := OverlappingTemplateMatchingProto(rev, 3)
+			ok = ok && near("overlapping reversal", in, []float64{r1, r2}, []float64{o1, o2})
+			ok = ok && near("apen reversal", in, p2(ApproximateEntropyProto(rev, 2)), p2(ApproximateEntropyProto(x, 2)))
+			// rotation
+			for _, r := range []int{1, 7, n / 3} {
+				rot := append(append([]bool{}, x[r:]...), x[:r]...)
+				t1, t2, _, _ := OverlappingTemplateMatchingProto(rot, 3)
+				ok = ok && near(fmt.Sprintf("overlapping rotation by %d", r), in, []float64{t1, t2}, []float64{o1, o2})
+				ok = ok && near(fmt.Sprintf("apen rotation by %d", r), in, p2(ApproximateEntropyProto(rot, 2)), p2(ApproximateEntropyProto(x, 2)))
+			}
+			// discarded tail: flip bits beyond the last whole block
+			tail := func(block int) []bool {
+				y := append([]bool{}, x...)
+				for i := n / block * block; i < n; i++ {
+					y[i] = !y[i]
+				}
+				return y
+			}
+			ok = ok && near("blockfreq tail", in, p2(FrequencyWithinBlockProto(tail(1000), 1000)), p2(FrequencyWithinBlockProto(x, 1000)))
+			ok = ok && near("poker tail", in, p2(PokerProto(tail(8), 8)), p2(PokerProto(x, 8)))
+			ok = ok && near("longest run tail", in, p2(LongestRunOfOnesInABlockProto(tail(128), true)), p2(LongestRunOfOnesInABlockProto(x, true)))
+			ok = ok && near("rank tail", in, p2(MatrixRankProto(tail(1024), 32, 32)), p2(MatrixRankProto(x, 32, 32)))
+			ok = ok && near("linear complexity tail", in, p2(LinearComplexityProto(tail(500), 500)), p2(LinearComplexityProto(x, 500)))
+			ok = ok && near("maurer tail", in, p2(MaurerUniversalTest(tail(7))), p2(MaurerUniversalTest(x)))
+			// whole-block permutation (swap first and last whole block)
+			swap := func(block int) []bool {
+				y := append([]bool{}, x...)
+				nb := n / block
+				if nb >= 2 {
+					for i := 0; i < block; i++ {
+						y[i], y[(nb-1)*block+i] = y[(nb-1)*block+i], y[i]
+					}
+				}
+				return y
+			}
+			ok = ok && near("blockfreq block permutation", in, p2(FrequencyWithinBlockProto(swap(1000), 1000)), p2(FrequencyWithinBlockProto(x, 1000)))
+			ok = ok && near("poker block permutation", in, p2(PokerProto(swap(8), 8)), p2(PokerProto(x, 8)))
+			ok = ok && near("longest run block permutation", in, p2(LongestRunOfOnesInABlockProto(swap(128), true)), p2(LongestRunOfOnesInABlockProto(x, true)))
+			ok = ok && near("rank block permutation", in, p2(MatrixRankProto(swap(1024), 32, 32)), p2(MatrixRankProto(x, 32, 32)))
+			ok = ok && near("linear complexity block permutation", in, p2(LinearComplexityProto(swap(500), 500)), p2(LinearComplexityProto(x, 500)))
+			if !ok {
+				return
+			}
+		}
+	}
+}
+
+// C18: inputs untouched, repeatable, same results under concurrent calls
+func (c *hCtx) checkPurity() {
+	name := "purity"
+	nb := 2500
+	if c.req.Budget == "thorough" {
+		nb = 125000
+	}
+	data := make([]byte, nb)
+	c.rng.Read(data)
+	bits := B2bitArr(data)
+	dataCopy := append([]byte(nil), data...)
+	bitsCopy := append([]bool(nil), bits...)
+	type fn struct {
+		name string
+		f    func() []float64
+	}
+	p2 := func(p, q float64) []float64 { return []float64{p, q} }
+	var fns []fn
+	for i, item := range TestMethodArr {
+		item := item
+		fns = append(fns, fn{fmt.Sprintf("runner %d %s", i+1, item.Name), func() []float64 { r := item.Runner(data); return []float64{r.P, r.Q, r.P2, r.Q2} }})
+	}
+	fns = append(fns,
+		fn{"BinaryDerivativeProto k=3", func() []float64 { return p2(BinaryDerivativeProto(bits, 3)) }},
+		fn{"MatrixRankProto", func() []float64 { return p2(MatrixRankProto(bits, 32, 32)) }},
+		fn{"DiscreteFourierTransformTest", func() []float64 { return p2(DiscreteFourierTransformTest(bits)) }},
+		fn{"LongestRun zeros", func() []float64 { return p2(LongestRunOfOnesInABlockProto(bits, false)) }},
+		fn{"LinearComplexityProto 1000", func() []float64 { return p2(LinearComplexityProto(bits, 1000)) }},
+		fn{"CumulativeTest backward", func() []float64 { return p2(CumulativeTest(bits, false)) }},
+		fn{"PokerProto 2", func() []float64 { return p2(PokerProto(bits, 2)) }},
+		fn{"OverlappingProto 7", func() []float64 { a, b, cc, d := OverlappingTemplateMatchingProto(bits, 7); return []float64{a, b, cc, d} }},
+		fn{"ApproximateEntropyProto 7", func() []float64 { return p2(ApproximateEntropyProto(bits, 7)) }},
+	)
+	same := func(a, b []float64) bool {
+		for i := range a {
+			if a[i] != b[i] && !(math.IsNaN(a[i]) && math.IsNaN(b[i])) {
+				return false
+			}
+		}
+		return true
+	}
+	unchanged := func() bool {
+		for i := range data {
+			if data[i] != dataCopy[i] {
+				return false
+			}
+		}
+		for i := range bits {
+			if bits[i] != bitsCopy[i] {
+				return false
+			}
+		}
+		return true
+	}
+	base := make([][]float64, len(fns))
+	for i, f := range fns {
+		c.resp.Cases[name]++
+		base[i] = f.f()
+		if !unchanged() {
+			c.report(name, map[string]interface{}{"function": f.name, "bytes": nb}, "the caller's input slice was modified", "input left untouched")
+			return
+		}
+		again := f.f()
+		if !same(base[i], again) {
+			c.report(name, map[string]interface{}{"function": f.name, "bytes": nb}, fmt.Sprint(again), fmt.Sprint(base[i])+" (bit-identical on repetition)")
+			return
+		}
+	}
+	// concurrent calls on the shared input
+	type res struct {
+		i int
+		v []float64
+	}
+	ch := make(chan res, 8*len(fns))
+	for g := 0; g < 8; g++ {
+		go func(g int) {
+			for k := range fns {
+				i := (k + g) % len(fns)
+				ch <- res{i, fns[i].f()}
+			}
+		}(g)
+	}
+	for k := 0; k < 8*len(fns); k++ {
+		r := <-ch
+		c.resp.Cases[name]++
+		if !same(r.v, base[r.i]) {
+			c.report(name, map[string]interface{}{"function": fns[r.i].name, "bytes": nb, "goroutines": 8}, fmt.Sprint(r.v), fmt.Sprint(base[r.i])+" (same as when called alone)")
+			return
+		}
+	}
+	if !unchanged() {
+		c.report(name, map[string]interface{}{"bytes": nb}, "input modified by concurrent calls", "input left untouched")
+	}
+}
+
 func TestVerifHarness(t *testing.T) {
 	reqPath := os.Getenv("VERIF_HARNESS_REQ")
 	outPath := os.Getenv("VERIF_HARNESS_OUT")
@@ -1036,6 +1236,10 @@ func TestVerifHarness(t *testing.T) {
 			c.checkRankFn()
 		case "entry-points":
 			c.checkEntryPoints()
+		case "symmetry":
+			c.checkSymmetry()
+		case "purity":
+			c.checkPurity()
 		default:
 			sc, ok := all[name]
 			if !ok {
